@@ -6,7 +6,7 @@ from typing import List, Optional, Tuple
 
 from ..collect import Path, callee_is, run_paths
 from ..common import with_helpers, calls_in, construct, where
-from ..flow import subterms, NONE, Value, show
+from ..flow import contains, subterms, NONE, Value, show
 from ..loader import AnalysisError, ClassInfo, FuncInfo, Program
 from ..report import Report
 
@@ -323,7 +323,10 @@ def run(p: Program, rep: Report, tier: str) -> None:
                 a0 = s.b[0] if s.b else None
                 env_reads = [t for t in subterms(a0) if t[0] in ("call", "sub") and ((t[0] == "call" and t[1][0] == "attr" and t[1][1] == ("param", "environ")) or (t[0] == "sub" and t[1] == ("param", "environ")))] if a0 else []
                 keys = sorted({(t[2][0][1] if t[0] == "call" and t[2] and t[2][0][0] == "const" else (t[2][1] if t[0] == "sub" and t[2][0] == "const" else "?")) for t in env_reads})
-                if keys != ["HTTP_HOST"]:
+                handed_on = a0 is not None and any(t[0] == "call" and t[1][0] in ("func", "closure") and any(contains(x_, ("param", "environ")) for x_ in t[2]) for t in subterms(a0))
+                if not keys and handed_on:
+                    rep.undecide("R9.4", f"wsgi Hosts: the value searched ({hv[:60]}) comes out of a repository function that is handed environ: which keys it reads is not followed")
+                elif keys != ["HTTP_HOST"]:
                     rep.violation("R9.4", construct(call, text=f"search({hv[:70]})"), where(call),
                                   f"wsgi Hosts: the value searched is computed from environ keys {keys}, not from the Host header alone: a request without a Host header is dispatched by the server's own name "
                                   "instead of being answered 404 (and differently from ASGI)")
